@@ -1,6 +1,7 @@
 package sim
 
 import (
+	sdk "github.com/cosmos/cosmos-sdk/types"
 	"bufio"
 	"bytes"
 	"encoding/json"
@@ -12,7 +13,41 @@ import (
 
 // GenesisForProfile selects the genesis configuration of a generator profile.
 func GenesisForProfile(profile string, hs uint64) GenesisCfg {
-	return GenesisCfg{}
+	cfg := GenesisCfg{}
+	if profile == "reward" {
+		// parameter sets over reward / baseline / APY / halving / adjustment periods and the amount
+		// already minted (halving age), all accepted by Params.Validate. The APY is placed so that
+		// the baseline formula pledged*apy/(halving/2) lands around the block reward of the current
+		// halving age for the pledge total the scenario starts with (10 coins per node).
+		r := NewRng(hs ^ 0x5eed)
+		n := int64(3 + NewRng(hs).Intn(4)) // number of nodes the generator will create
+		p := DefaultNodeParams(Denom)
+		br := []int64{1000, 6250000, 100, 1 << 40, 97, 64}[r.Intn(6)]
+		p.BlockReward = sdk.NewInt64Coin(Denom, br)
+		p.Baseline = sdk.NewInt64Coin(Denom, []int64{1000000, 1000000, 1000, 25, 0}[r.Intn(5)])
+		p.HalvingPeriod = []int64{11, 12, 1000, 32000000}[r.Intn(4)]
+		p.AdjustmentPeriod = []int64{11, 13, 2000}[r.Intn(3)]
+		age := uint(r.Intn(4))
+		minted := []int64{0, 200000000000000, 300000000000000, 350000000000000}[age]
+		if r.Chance(30) {
+			minted += []int64{-1000, 1000, 99999999999000}[r.Intn(3)]
+			if minted < 0 {
+				minted = 0
+			}
+		}
+		halved := br >> age
+		if halved == 0 {
+			halved = 1
+		}
+		rho := []int64{5, 9, 10, 13, 19, 25, 50, 0}[r.Intn(8)] // tenths of the halved reward
+		apy := sdk.NewDec(halved).MulInt64(p.HalvingPeriod / 2).MulInt64(rho).QuoInt64(10 * 10 * n)
+		p.AnnualPercentageYield = apy.String()
+		cfg.NodeParams = &p
+		pool := DefaultPool(Denom)
+		pool.TotalReward = sdk.NewInt64Coin(Denom, minted)
+		cfg.Pool = &pool
+	}
+	return cfg
 }
 
 // Replay re-executes the raw ops recorded in a trace (or a replay file holding
